@@ -504,3 +504,99 @@ def install_unpacker():
     Avp.from_unpacker = classmethod(from_unpacker)
     _unp_installed = True
     return MON
+
+
+# --------------------------------------------------------------------------- to_answer (C20)
+
+_ans_installed = False
+
+
+def expected_answer_classes(req) -> tuple:
+    """Acceptable answer classes for a request instance, from the naming convention:
+    typed request -> its paired Answer; typed base -> Answer subclass of that base;
+    command without an answer class -> a generic class (its own untyped class, Message or
+    UndefinedMessage)."""
+    cls = type(req)
+    paired = L.paired_answer_class(cls)
+    if paired is not None:
+        return (paired,)
+    if issubclass(cls, L.DefinedMessage):
+        for s in cls.__subclasses__():
+            if s.__name__ == cls.__name__ + "Answer":
+                return (s,)
+        if cls.__name__.endswith("Request"):
+            return (L.Message,)
+        return (cls, L.Message)
+    return (cls, L.Message, L.UndefinedMessage)
+
+
+def judge_answer(req, before: tuple, ans, where: str):
+    """before = request header tuple snapshot taken before the call."""
+    rh = req.header
+    after = (rh.version, rh.command_flags, rh.command_code, rh.application_id,
+             rh.hop_by_hop_identifier, rh.end_to_end_identifier)
+    cname = type(req).__name__
+    if cname.endswith("Answer"):
+        MON.hit("to_answer.skipped_on_answer_instance")
+        return
+    if after != before:
+        MON.witness("C20", "to_answer.request_header_mutated", {"cls": cname, "before": before, "after": after})
+    ah = ans.header
+    bad = []
+    if ah.version != before[0]:
+        bad.append("version")
+    if ah.command_code != before[2]:
+        bad.append("code")
+    if ah.application_id != before[3]:
+        bad.append("app")
+    if ah.hop_by_hop_identifier != before[4]:
+        bad.append("hbh")
+    if ah.end_to_end_identifier != before[5]:
+        bad.append("e2e")
+    if bad:
+        MON.witness("C20", "to_answer.header_not_mirrored." + "+".join(bad),
+                    {"cls": cname, "where": where, "req": before, "ans_code": ah.command_code})
+    fl = ah.command_flags
+    if fl & 0x80:
+        MON.witness("C20", "to_answer.r_bit_set", {"cls": cname, "flags": fl})
+    if fl & 0x20:
+        MON.witness("C20", "to_answer.e_bit_set", {"cls": cname, "flags": fl})
+    if fl & 0x10:
+        MON.witness("C20", "to_answer.t_bit_set", {"cls": cname, "flags": fl})
+    if (fl & 0x40) != (before[1] & 0x40):
+        MON.witness("C20", "to_answer.p_bit_not_kept", {"cls": cname, "ans_cls": type(ans).__name__,
+                                                         "req_flags": before[1], "ans_flags": fl})
+    exp = expected_answer_classes(req)
+    if not (before[1] & 0x80) and not cname.endswith("Request"):
+        # a generic / base-class instance without the R bit is not a request: class not judged
+        MON.hit("to_answer.class_not_judged_no_r_bit")
+    elif type(ans) not in exp:
+        kind = "typed_base" if (issubclass(type(req), L.DefinedMessage) and not cname.endswith("Request")) else "other"
+        MON.witness("C20", f"to_answer.wrong_class.{kind}", {"cls": cname, "got": type(ans).__name__,
+                                                              "exp": [c.__name__ for c in exp]})
+
+
+def install_to_answer():
+    global _ans_installed
+    if _ans_installed:
+        return MON
+    Msg = base_mod.Message
+    orig = Msg.to_answer
+
+    def to_answer(self):
+        if not MON.enabled:
+            return orig(self)
+        h = self.header
+        before = (h.version, h.command_flags, h.command_code, h.application_id,
+                  h.hop_by_hop_identifier, h.end_to_end_identifier)
+        ans = orig(self)
+        try:
+            MON.hit("to_answer")
+            judge_answer(self, before, ans, "contract")
+        except Exception as e:
+            MON.hit("monitor_error:to_answer:" + type(e).__name__)
+        return ans
+
+    Msg.to_answer = to_answer
+    _ans_installed = True
+    return MON
